@@ -344,3 +344,63 @@ pub proof fn lemma_logical_kept(a: Seq<Line>, b: Seq<Line>, k: int)
         lemma_lline_prefix(a, b, j, k);
     }
 }
+
+/// [C09] the characters of a run of cells
+pub open spec fn cells_chars(cs: Seq<Cell>) -> Seq<char> {
+    Seq::new(cs.len(), |i: int| cs[i].0)
+}
+
+/// [C09] a text without its trailing U+0020 characters ("trailing spaces trimmed": spaces, not
+/// U+00A0 or any other printable the input may end a line with)
+pub open spec fn rtrim(s: Seq<char>) -> Seq<char>
+    decreases s.len(),
+{
+    if s.len() > 0 && s.last() == ' ' { rtrim(s.drop_last()) } else { s }
+}
+
+/// [C09] no row below `k` belongs to a logical line that has not begun yet
+pub proof fn lemma_lline_empty(ls: Seq<Line>, j: int, k: int)
+    requires
+        0 <= k,
+        k == 0 || ends_before(ls, k - 1) < j,
+    ensures
+        lline(ls, j, k) == Seq::<Cell>::empty(),
+    decreases k,
+{
+    if k > 0 {
+        if k - 1 > 0 {
+            lemma_ends_mono(ls, k - 2, k - 1);
+        }
+        lemma_lline_empty(ls, j, k - 1);
+        assert(lline(ls, j, k) == lline(ls, j, k - 1) + Seq::<Cell>::empty());
+    }
+}
+
+
+/// [C09] reading the characters off a run of cells distributes over concatenation
+pub proof fn lemma_cells_chars_add(a: Seq<Cell>, b: Seq<Cell>)
+    ensures
+        cells_chars(a + b) =~= cells_chars(a) + cells_chars(b),
+{
+}
+
+/// [C09] trimming one character is the trimming the property speaks of when that character is U+0020
+pub proof fn lemma_rtrim_is_space(s: Seq<char>)
+    ensures
+        crate::rtrim_char(s, ' ') == rtrim(s),
+    decreases s.len(),
+{
+    if s.len() > 0 && s.last() == ' ' {
+        lemma_rtrim_is_space(s.drop_last());
+    }
+}
+
+/// the characters of a String (a typed wrapper: fixes the element type of `Vec::new()` in invariants)
+pub open spec fn str_view(s: String) -> Seq<char> { s@ }
+
+/// [C09] what `text()` returns for a buffer whose last row is not soft-wrapped: one string per
+/// logical line, each the line's characters with trailing U+0020 removed (`Buffer::text/E1,E2`)
+pub open spec fn text_post(b: Buffer, r: Seq<String>) -> bool {
+    &&& r.len() == ends_before(b.lines@, b.lines@.len() as int)
+    &&& forall|j: int| 0 <= j < r.len() ==> (#[trigger] r[j])@ == rtrim(cells_chars(lline(b.lines@, j, b.lines@.len() as int)))
+}
